@@ -73,6 +73,14 @@ def generate(rng, tier):
             op = {"op": "write", "fmt": fmt, "path": p, "map": _rmap(rng, hi),
                   "dx": 10 ** rng.uniform(-3, 2), "wvl": rng.choice([0.6328, 0.6328, rng.uniform(0.3, 11.0), rng.uniform(0.19, 0.63),
                                      10 ** rng.uniform(-2.3, 2.5)])}        # EUV ... far infrared
+            earlier = [o["wvl"] for o in ops if o["op"] == "write"]
+            if earlier and rng.random() < 0.15:
+                # a wavelength a few parts in 1e5 (or 1e6) away from one used by an earlier write of this run: a
+                # tunable source, or the same line quoted to another digit
+                op["wvl"] = rng.choice(earlier) * (1 + rng.choice([2.5e-5, -2.5e-5, 1.5e-6, 6e-5]))
+                if rng.random() < 0.6:
+                    op["map"]["vals"] = rng.choice(["pos_big", "neg_big", "mixed"])
+                    op["map"]["mag"] = max(op["map"]["mag"], 3000.0)
             if fmt == "codev" and rng.random() < 0.4:
                 op["cv"] = {"typ": rng.choice(["SUR", "WFR", "wfr"]), "nnb": rng.random() < 0.5}
             if rng.random() < 0.15:
@@ -545,7 +553,11 @@ def _judge(w, entry, spans, k, res, step_i, viol, bump, probes):
     lay = entry["layout"]
     region = _region(entry, spans, k)
     step = _step(entry)
-    tolv = step * (1 + 1e-9) + np.abs(np.nan_to_num(z)) * (2.0 ** -22 if fmtc == "zygo" else 1e-12)
+    # one quantisation step, plus the rounding of the array that comes back when the reader works in single
+    # precision (the configured precision); nothing else - the header's float32 wavelength is no excuse, a
+    # writer can scale with the number it stores
+    lowp_out = arr is not None and getattr(arr, "dtype", None) == np.float32
+    tolv = step * (1 + 1e-9) + np.abs(np.nan_to_num(z)) * (2.0 ** -22 if lowp_out else 1e-12)
     if entry.get("f32"):
         tolv = tolv + np.abs(np.nan_to_num(z)) * 2.0 ** -21      # the input's own single-precision rounding
 
